@@ -142,7 +142,7 @@ class C03(Prop):
         t = obs["t"]
         if isinstance(t, list) and len(t) == len(shapes):
             for i, (o, w) in enumerate(zip(t, shapes)):
-                d = dg.reified_diff(o, w, stroke=False)      # the stroke width is C14's observable
+                d = dg.reified_diff(o, w, stroke=False, impl_m=f[i]["m"])      # the stroke width is C14's observable
                 if d:
                     return [Mismatch(stream="c03.reify", case=case, impl="shape %d: %s" % (i, d), model="see impl")]
         return []
